@@ -24,7 +24,7 @@ ASSUMPTIONS = [
     "'fully fixed' for a file is what fixing that file alone, without faults, produces",
 ]
 
-CONTENT = {"clean": "# a\n", "failing": "# a\n# b\n", "fixable": "#  a  \n\n* b\n+ c\n"}
+CONTENT = {"clean": "# a\n", "failing": "# a\n# b\n", "fixable": "#  a  \n\n* b\n+ c\n", "pc": "# a\n\nCRASHME\n", "tc": "# a\n\nPARSECRASH\n"}
 KINDS = ["clean", "failing", "fixable"]
 FIXCFG = {"nofix": (False, 0), "fix0": (True, 0), "fix9": (True, 9)}
 FAULTER = os.path.join(common.PLUGIN_DIR, "faulter_plugin.py")
@@ -126,6 +126,12 @@ class FaultSpace(spaces.Space):
                             cases.append(("parser", c, mode, coe, scheme, None, i))
                         for pos in range(3):
                             cases.append(("undecodable", c, mode, coe, scheme, None, pos))
+        # deviation bound 2: two faulty files in one run (marker-driven plugin / parser faults)
+        for c in itertools.product(("clean", "fixable", "pc", "tc"), repeat=3):
+            if sum(1 for x in c if x in ("pc", "tc")) >= 2:
+                for mode in ("scan", "fix"):
+                    for scheme in SCHEMES:
+                        cases.append(("double", c, mode, True, scheme, None, 0))
         for kind in ("fixable",):
             for text in (CONTENT["fixable"], "#  a\n", "a  \n", "* a\n+ b\n\n\n\nc\tc\n", "# a\n\n### b", "\ta\n"):
                 cases.append(("crash", (text,), "fix", False, "default", None, 0))
@@ -192,6 +198,8 @@ def evaluate(payload):
     res = {"fail": None, "feeds": 1}
     if kind == "crash":
         return _crash(contents[0], res)
+    if kind == "double":
+        return _double(contents, mode, scheme, res)
     failing_files = []
     names = _names(contents)
     ok_bytes = {n: {CONTENT[c].encode(), fully_fixed(c)} for n, c in zip(names, contents)}
@@ -291,6 +299,47 @@ def _parser_file(contents, mode, k):
         if k <= acc:
             return names[i]
     return names[-1]
+
+
+def _double(contents, mode, scheme, res):
+    """two faulty files, --continue-on-error: both reported, exit = system error, the rest unaffected"""
+    inject.install_parser_fault()
+    names = _names(contents)
+    files = {n: CONTENT[c] for n, c in zip(names, contents)}
+    extra = ["--add-plugin", inject.CRASH_PLUGIN]
+    with app.Sandbox(files) as sb:
+        r = app.run_main(_argv(mode, True, scheme, names, extra), sb)
+        by = {n: sb.read(n) for n in names}
+        tmp = sb.tmp_entries()
+    good = [n for n, c in zip(names, contents) if c in ("clean", "fixable")]
+    bad = [n for n, c in zip(names, contents) if c in ("pc", "tc")]
+    with app.Sandbox({n: files[n] for n in good}) as sb:
+        ref = app.run_main(_argv(mode, True, scheme, good, extra), sb) if good else None
+        refby = {n: sb.read(n) for n in good}
+    res["feeds"] = 2
+    res["nontrivial"] = True
+    res["states"] = [("double", mode, tuple(contents))]
+    fail = None
+    if r.rc != 1:
+        fail = (f"double:{mode}:error-masked-exit-{r.rc}", {"stderr": r.err[-300:]})
+    else:
+        for n in bad:
+            if n not in r.err:
+                fail = (f"double:{mode}:failing-file-not-named", {"file": n, "stderr": r.err[-400:]})
+                break
+            if by[n] != files[n].encode():
+                fail = (f"double:{mode}:failing-file-modified", {"file": n})
+                break
+    if fail is None:
+        for n in good:
+            if _per_file_lines(r.out, n) != _per_file_lines(ref.out, n) or by[n] != refby[n]:
+                fail = (f"double:{mode}:other-file-affected-by-the-failures", {"file": n, "with": _per_file_lines(r.out, n), "without": _per_file_lines(ref.out, n)})
+                break
+    if fail is None and tmp:
+        fail = (f"double:{mode}:temp-files-left", tmp)
+    res["fail"] = fail
+    res["outcome"] = fail[0] if fail else f"double:{mode}:contained"
+    return res
 
 
 # ------------------------------------------------------------------ crash points
